@@ -90,6 +90,61 @@ def parse_unit_rs():
 
 
 # --------------------------------------------------------------------------------------------------- units/*.rs
+def num(t):
+    """a Rust integer literal, digit separators allowed"""
+    return int(t.replace("_", ""))
+
+
+def matching(s, i):
+    """index just after the bracket that closes the one at s[i] (strings and chars are skipped)"""
+    openers, closers = "([{", ")]}"
+    depth, j = 0, i
+    while j < len(s):
+        c = s[j]
+        if c == '"':
+            j += 1
+            while j < len(s) and s[j] != '"':
+                j += 2 if s[j] == "\\" else 1
+        elif c == "'" and j + 2 < len(s) and (s[j + 2] == "'" or (s[j + 1] == "\\" and s[j + 3:j + 4] == "'")):
+            j += 3 if s[j + 2] == "'" else 4
+            continue
+        elif c in openers:
+            depth += 1
+        elif c in closers:
+            depth -= 1
+            if depth == 0:
+                return j + 1
+        j += 1
+    raise Fail("unbalanced brackets near `%s`" % s[i:i + 60])
+
+
+def fields(body):
+    """`name: value, name: value, ...` of a struct literal body, in any order and layout -> {name: value text}"""
+    out, i, n = {}, 0, len(body)
+    while i < n:
+        m = re.compile(r"\s*(\w+)\s*:\s*").match(body, i)
+        if not m:
+            need(body[i:].strip() in ("", ","), "cannot read struct literal near `%s`" % body[i:i + 60])
+            break
+        j = m.end()
+        k = j
+        if k < n and body[k] == "|":                       # a closure: its parameter list may contain commas
+            k = body.index("|", k + 1) + 1
+        while k < n and body[k] != ",":
+            if body[k] in "([{":
+                k = matching(body, k)
+            elif body[k] == '"':
+                k += 1
+                while k < n and body[k] != '"':
+                    k += 2 if body[k] == "\\" else 1
+                k += 1
+            else:
+                k += 1
+        out[m.group(1)] = body[j:k].strip()
+        i = k + 1
+    return out
+
+
 def parse_closure(body):
     body = body.strip()
     m = re.match(r"\|(\w+), (\w+)\| \{(.*)\}\s*$", body, re.S)
@@ -136,20 +191,28 @@ def parse_conv(c):
     c = c.strip()
     if c == "None":
         return ("None",)
-    m = re.match(r"Some\(Conversion::(Factor|Offset)\(ConversionFraction \{\s*numer: (\d+),\s*denom: (\d+),\s*\}\)\)$", c, re.S)
+    m = re.match(r"Some\(Conversion::(Factor|Offset)\(ConversionFraction \{(.*)\}\)\)$", c, re.S)
     if m:
-        need(int(m.group(3)) > 0 and int(m.group(2)) > 0, "units: non-positive conversion fraction")
-        return (m.group(1), int(m.group(2)), int(m.group(3)))
-    m = re.match(r"Some\(Conversion::Methods\(ConversionMethods \{\s*to: \|num\| \{(.*?)\},\s*from: \|num\| \{(.*?)\},\s*\}\)\)$", c, re.S)
+        f = fields(m.group(2))
+        need(set(f) == {"numer", "denom"} and re.fullmatch(r"[\d_]+", f["numer"]) and re.fullmatch(r"[\d_]+", f["denom"]),
+             "units: cannot read conversion fraction `%s`" % c[:100])
+        need(num(f["denom"]) > 0 and num(f["numer"]) > 0, "units: non-positive conversion fraction")
+        return (m.group(1), num(f["numer"]), num(f["denom"]))
+    m = re.match(r"Some\(Conversion::Methods\(ConversionMethods \{(.*)\}\)\)$", c, re.S)
     if m:
+        f = fields(m.group(1))
+        need(set(f) == {"to", "from"}, "units: cannot read conversion methods `%s`" % c[:100])
+
         def ops(t):
+            mm = re.match(r"\|num\| \{(.*)\}$", t.strip(), re.S)
+            need(mm, "units: cannot read conversion closure `%s`" % t[:80])
             out = []
-            for st in [x.strip() for x in t.split(";") if x.strip()]:
-                mm = re.match(r"\*num (\S)= Rational::new\((\d+), (\d+)\)$", st)
-                need(mm and mm.group(1) in "+-*", "units: cannot read conversion step `%s`" % st)
-                out.append((mm.group(1), int(mm.group(2)), int(mm.group(3))))
+            for st in [x.strip() for x in mm.group(1).split(";") if x.strip()]:
+                mm2 = re.match(r"\*num (\S)= Rational::new\(([\d_]+), ([\d_]+)\)$", st)
+                need(mm2 and mm2.group(1) in "+-*", "units: cannot read conversion step `%s`" % st)
+                out.append((mm2.group(1), num(mm2.group(2)), num(mm2.group(3))))
             return out
-        return ("Methods", ops(m.group(1)), ops(m.group(2)))
+        return ("Methods", ops(f["to"]), ops(f["from"]))
     raise Fail("units: cannot read conversion `%s`" % c[:100])
 
 
@@ -161,18 +224,26 @@ def parse_units():
         s = read("units/" + f)
         mod = "" if f == "mod.rs" else f[:-3] + "::"
         static_count += len(re.findall(r"pub static \w+", s))
-        for m in re.finditer(r"pub static (\w+): Derived = Derived \{\s*id: crate::generated::ids::(\w+),\s*vtable: &DerivedVtable \{\s*powers:(.*?),\s*format:(.*?),\s*conversion:(.*?),\s*\},\s*\};", s, re.S):
-            name, idn, pw, fmt, conv = m.groups()
-            sg, pl = parse_format(fmt)
-            units[mod + name] = {"idname": idn, "powers": parse_closure(pw), "conv": parse_conv(conv), "singular": sg, "plural": pl}
+        for m in re.finditer(r"pub static (\w+): Derived = Derived (\{)", s):
+            name = m.group(1)
+            end = matching(s, m.start(2))
+            top = fields(s[m.start(2) + 1:end - 1])
+            need(set(top) == {"id", "vtable"}, "units: cannot read %s" % name)
+            mi = re.match(r"crate::generated::ids::(\w+)$", top["id"])
+            mv = re.match(r"&DerivedVtable \{(.*)\}$", top["vtable"], re.S)
+            need(mi and mv, "units: cannot read id / vtable of %s" % name)
+            vt = fields(mv.group(1))
+            need(set(vt) == {"powers", "format", "conversion"}, "units: cannot read vtable of %s" % name)
+            sg, pl = parse_format(vt["format"])
+            units[mod + name] = {"idname": mi.group(1), "powers": parse_closure(vt["powers"]), "conv": parse_conv(vt["conversion"]), "singular": sg, "plural": pl}
         if f == "time.rs":
             need(re.search(r"fn time_powers\(powers: &mut Powers, power: i32\) \{\s*powers\.insert\(Unit::Second, power\);\s*\}", s),
                  "units/time.rs: time_powers changed")
             need(re.search(r"powers: time_powers,\s*format: \$f,\s*conversion: Some\(Conversion::Factor\(ConversionFraction \{\s*numer: \$num,\s*denom: \$den,", s),
                  "units/time.rs: the time! macro changed")
-            for m in re.finditer(r"pub static (\w+) = \(crate::generated::ids::(\w+), (\d+) / (\d+)\), (.*?)\n\}", s, re.S):
+            for m in re.finditer(r"pub static (\w+) = \(crate::generated::ids::(\w+), ([\d_]+) / ([\d_]+)\), (.*?)\n\}", s, re.S):
                 sg, pl = parse_format(m.group(5))
-                units[mod + m.group(1)] = {"idname": m.group(2), "powers": [("Second", 1)], "conv": ("Factor", int(m.group(3)), int(m.group(4))),
+                units[mod + m.group(1)] = {"idname": m.group(2), "powers": [("Second", 1)], "conv": ("Factor", num(m.group(3)), num(m.group(4))),
                                            "singular": sg, "plural": pl}
     need(static_count == len(units), "units: %d `pub static` items but %d could be read" % (static_count, len(units)))
     short = {k.split("::")[-1]: k for k in units}
@@ -211,7 +282,10 @@ def parse_prefix():
         letters[m.group(1)] = m.group(2) if m.group(2) is not None else m.group(3)
     need(re.search(r"Prefix::None => Ok\(\(\)\),", disp.group(1)), "prefix.rs: Prefix::None display changed")
     letters["None"] = ""
-    need(re.search(r"Ok\(n\) => PREFIXES\[n\],\s*Err\(n\) => PREFIXES\[n\.saturating_sub\(1\)\],", s) and "(prefix, p - pow)" in s,
+    # Prefix::find: binary search for the power, the entry below when there is no exact one, and the difference as the extra
+    # (identifiers are free; how it behaves is tied by the display correspondence)
+    need(re.search(r"let \((\w+), (\w+)\) = match PREFIXES\.binary_search_by\(\|(\w+)\| \3\.0\.cmp\(&pow\)\) \{\s*"
+                   r"Ok\((\w+)\) => PREFIXES\[\4\],\s*Err\((\w+)\) => PREFIXES\[\5\.saturating_sub\(1\)\],\s*\};\s*\(\2, \1 - pow\)", s),
          "prefix.rs: Prefix::find changed")
     table = []
     for c, v in rows:
@@ -355,14 +429,17 @@ def learn_lexer(which, tokens):
 # --------------------------------------------------------------------------------------------------- grammar / eval / cli
 def parse_ops():
     s = read("syntax/grammar.rs")
-    m = re.search(r"let \(prio, kind, is_unit\) = match p\.nth\(skip, 0\) \{(.*?)_ => return None,", s, re.S)
+    f = re.search(r"fn op\(", s)
+    need(f, "grammar.rs: op() not found")
+    m = re.compile(r"let \(\w+, \w+, \w+\) = match p\.nth\(\w+, 0\) \{(.*?)_ => return None,", re.S).search(s, f.end())
     need(m, "grammar.rs: op() table not found")
     rows = []
     for mm in re.finditer(r"([\w |]+) => \((\d+), (\w+), (true|false)\),", m.group(1)):
         for tok in mm.group(1).split("|"):
             rows.append((tok.strip(), int(mm.group(2)), mm.group(3), mm.group(4) == "true"))
     need(rows, "grammar.rs: op() table empty")
-    return rows
+    need(len({r[0] for r in rows}) == len(rows), "grammar.rs: an operator token has two arms")
+    return sorted(rows, key=lambda r: (r[1], r[0]))            # the arms are disjoint: their order in the source does not matter
 
 
 def parse_builtins():
@@ -395,8 +472,8 @@ def parse_db_protocol():
          "db.rs: the reopen path of open_index changed")
     after = body[body.index("return Ok((false, index));"):]
     pats = [(r"crate::verif::crash_point\((\d+)\)", "CP"), (r"config\.remove_meta\(\)", "RemoveMeta"), (r"fs::remove_dir_all\(", "RemoveDir"),
-            (r"fs::create_dir_all\(", "CreateDir"), (r"Index::create_in_dir\(", "CreateIndex"), (r"writer\.delete_all_documents\(\)", "DeleteAll"),
-            (r"db\.load_bytes\(&mut writer", "AddDocs"), (r"writer\.commit\(\)", "Commit"), (r"config\.write_meta\(\)", "WriteMeta")]
+            (r"fs::create_dir_all\(", "CreateDir"), (r"Index::create_in_dir\(", "CreateIndex"), (r"\w+\.delete_all_documents\(\)", "DeleteAll"),
+            (r"\w+\s*\.load_bytes\(&mut \w+", "AddDocs"), (r"\w+\.commit\(\)", "Commit"), (r"config\.write_meta\(\)", "WriteMeta")]
 
     def scan(text):
         found = []
@@ -410,16 +487,18 @@ def parse_db_protocol():
     m2 = re.search(r"fn open_inner\(in_memory: bool\) -> Result<Self> \{(.*?)\n    \}\n", s, re.S)
     need(m2, "db.rs: open_inner not found")
     inner = m2.group(1)
-    need("let (index_rebuild, index) = open_index(&config)?;" in inner and "rebuild = rebuild || index_rebuild;" in inner, "db.rs: open_inner no longer combines the rebuild flags")
-    need(re.search(r"Some\(existing\) if !in_memory => existing != hash,\s*_ => true,", inner), "db.rs: the stored-hash test changed")
+    mo = re.search(r"let \((\w+), (\w+)\) = open_index\(&config\)\?;", inner)
+    need(mo and re.search(r"rebuild = rebuild \|\| %s;|rebuild \|= %s;" % (mo.group(1), mo.group(1)), inner), "db.rs: open_inner no longer combines the rebuild flags")
+    mh = re.search(r"let (\w+) = config\.hash_assets\(\);", inner)
+    need(mh and re.search(r"Some\((\w+)\) if !in_memory => \1 != %s,\s*_ => true," % mh.group(1), inner), "db.rs: the stored-hash test changed")
     pre = scan(inner[inner.index("open_index(&config)?;"):inner.index("if rebuild {")])
     blk = inner[inner.index("if rebuild {"):]
     reb = scan(blk)
     need(re.search(r"if !in_memory \{\s*config\.write_meta\(\)\?;", blk), "db.rs: write_meta is no longer guarded by !in_memory only")
     s2 = read("config.rs")
-    need(re.search(r"pub fn write_meta\(&self\) -> Result<\(\)> \{\s*let f = fs::File::create\(&self\.meta_path\)\?;\s*serde_json::to_writer\(f, &self\.meta\)\?;", s2), "config.rs: write_meta changed")
-    need("config.meta.version = Some(config.this_version.to_owned());" in blk and "config.meta.database_hash = Some(hash);" in blk, "db.rs: the metadata written after a rebuild changed")
-    fv = re.search(r"let force_rebuild = match config\.meta\.version\.as_deref\(\) \{\s*Some\(version\) => version != config\.this_version,\s*_ => true,", body)
+    need(re.search(r"pub fn write_meta\(&self\) -> Result<\(\)> \{\s*let (\w+) = fs::File::create\(&self\.meta_path\)\?;\s*serde_json::to_writer\(\1, &self\.meta\)\?;", s2), "config.rs: write_meta changed")
+    need("config.meta.version = Some(config.this_version.to_owned());" in blk and ("config.meta.database_hash = Some(%s);" % mh.group(1)) in blk, "db.rs: the metadata written after a rebuild changed")
+    fv = re.search(r"let force_rebuild = match config\.meta\.version\.as_deref\(\) \{\s*Some\((\w+)\) => \1 != config\.this_version,\s*_ => true,", body)
     need(fv, "db.rs: the version gate of open_index changed")
     return idx, pre, reb
 
@@ -706,8 +785,20 @@ def main():
     o.append("Definition after_open_steps : list step := %s.\n" % steps(pre_steps))
     o.append("Definition rebuild_steps : list step := %s.\n" % steps(reb_steps))
     o.append("(* the writer constructor: number of indexing threads (0 = tantivy's default, one per core up to 8) *)\n")
-    wm = re.search(r"db\.index\.writer_with_num_threads\((\d+),", read("db.rs"))
-    o.append("Definition writer_threads : nat := %d.\n" % (int(wm.group(1)) if wm else 0))
+    dbs = read("db.rs")
+    wm = re.search(r"\.writer_with_num_threads\(\s*(\w+),", dbs)
+    threads = 0
+    if wm:
+        arg = wm.group(1)
+        if arg.isdigit():
+            threads = int(arg)
+        else:
+            cm = re.search(r"const %s: \w+ = ([\d_]+);" % arg, dbs)
+            need(cm, "db.rs: cannot resolve the thread count `%s`" % arg)
+            threads = num(cm.group(1))
+    else:
+        need(re.search(r"\.writer\(", dbs), "db.rs: no index writer constructor found")
+    o.append("Definition writer_threads : nat := %d.\n" % threads)
     write_if_changed(os.path.join(GEN, "DbSteps.v"), "".join(o))
 
     # ---- Shipped.v
